@@ -4,6 +4,7 @@ mod drive;
 mod extract;
 mod replay;
 mod rx;
+mod sortcases;
 
 fn arg(args: &[String], name: &str) -> Option<String> {
     args.iter().position(|a| a == name).and_then(|p| args.get(p + 1)).cloned()
@@ -64,6 +65,9 @@ fn main() {
             } else {
                 println!("{}", doc::run(&input, &output, args.iter().any(|a| a == "--prefixes"), subst, seed));
             }
+        }
+        Some("sortcases") => {
+            println!("{}", sortcases::run(&arg(&args, "--in").expect("--in"), &arg(&args, "--out").expect("--out"), &arg(&args, "--trace").expect("--trace")));
         }
         Some("histories") => {
             let input = arg(&args, "--in").expect("--in");
